@@ -554,6 +554,39 @@ func (e *Engine) apply(op Op) Result {
 		e.txW[id] = want
 		return Result{}
 
+	case "load":
+		// Load without MarkDirty / SetBytes: nothing changes, the page must keep reading as before, also after
+		// the commit (and a checkpoint that runs in it)
+		if !needTx() {
+			return Result{Skipped: true}
+		}
+		id, ok := e.pick(op.P)
+		if !ok || e.txFlushed[id] {
+			return Result{Skipped: true}
+		}
+		want, has := e.expect(id)
+		if !has {
+			return Result{Skipped: true}
+		}
+		p, err := e.page(id)
+		if err != nil {
+			e.fail("Page(%d) failed: %v", id, err)
+			return Result{Err: ErrKind(err)}
+		}
+		if err := p.Load(); err != nil {
+			e.fail("Load(%d) failed: %v", id, err)
+			return Result{Err: ErrKind(err)}
+		}
+		buf, err := p.Bytes()
+		if err != nil {
+			e.fail("Bytes(%d) after Load failed: %v", id, err)
+			return Result{Err: ErrKind(err)}
+		}
+		if !bytes.Equal(buf, want) {
+			e.fail("Load(%d): buffer differs from expected content (first diff at %d)", id, firstDiff(buf, want))
+		}
+		return Result{}
+
 	case "read":
 		if !needTx() {
 			return Result{Skipped: true}
@@ -824,6 +857,25 @@ func (e *Engine) apply(op Op) Result {
 		e.checkReader(r, "rclose")
 		if err := r.tx.Close(); err != nil {
 			e.fail("reader Close failed: %v", err)
+		}
+		// every second reader is finished once more (defer tx.Rollback() after an explicit Close is a common
+		// pattern): an error is documented, and it must not release anything a second time
+		e.Stats["rclose"]++
+		if e.Stats["rclose"]%2 == 0 {
+			func() {
+				defer func() {
+					if p := recover(); p != nil {
+						e.fail("second finish of a closed reader panicked: %v", p)
+					}
+				}()
+				if err := r.tx.Rollback(); err == nil {
+					e.fail("Rollback of a closed reader returned no error")
+				}
+			}()
+			if sh, _, _ := txfile.VerifLockState(e.File); sh != uint(len(e.readers)-1) {
+				e.fail("after finishing a closed reader a second time the file lock counts %d readers, %d are open", sh, len(e.readers)-1)
+				e.Dead = true // every later commit would wait for ever (or not wait at all)
+			}
 		}
 		e.readers = append(e.readers[:i], e.readers[i+1:]...)
 		return Result{}
